@@ -172,7 +172,7 @@ func (db *MemDB) AwaitProposal(ctx context.Context, slot uint64) (*eth2api.Versi
 	case <-ctx.Done():
 		return nil, ctx.Err()
 	case block := <-response:
-		return block, nil
+		return cloneProposal(block) // Clone before returning.
 	}
 }
 
@@ -201,7 +201,7 @@ func (db *MemDB) AwaitAttestation(ctx context.Context, slot uint64, commIdx uint
 	case <-ctx.Done():
 		return nil, ctx.Err()
 	case value := <-response:
-		return value, nil
+		return cloneAttestationData(value) // Clone before returning.
 	}
 }
 
@@ -275,8 +275,54 @@ func (db *MemDB) AwaitSyncContribution(ctx context.Context, slot, subcommIdx uin
 	case <-ctx.Done():
 		return nil, ctx.Err()
 	case value := <-response:
-		return value, nil
+		return cloneSyncContribution(value) // Clone before returning.
 	}
+}
+
+// cloneProposal returns a deep copy of the stored proposal. For an immutable core workflow
+// architecture the stored pointer must never be handed out.
+func cloneProposal(stored *eth2api.VersionedProposal) (*eth2api.VersionedProposal, error) {
+	clone, err := core.VersionedProposal{VersionedProposal: *stored}.Clone()
+	if err != nil {
+		return nil, err
+	}
+
+	proposal, ok := clone.(core.VersionedProposal)
+	if !ok {
+		return nil, errors.New("invalid versioned proposal")
+	}
+
+	return &proposal.VersionedProposal, nil
+}
+
+// cloneAttestationData returns a deep copy of the stored attestation data.
+func cloneAttestationData(stored *eth2p0.AttestationData) (*eth2p0.AttestationData, error) {
+	b, err := stored.MarshalSSZ()
+	if err != nil {
+		return nil, errors.Wrap(err, "marshal attestation data")
+	}
+
+	resp := new(eth2p0.AttestationData)
+	if err := resp.UnmarshalSSZ(b); err != nil {
+		return nil, errors.Wrap(err, "unmarshal attestation data")
+	}
+
+	return resp, nil
+}
+
+// cloneSyncContribution returns a deep copy of the stored sync committee contribution.
+func cloneSyncContribution(stored *altair.SyncCommitteeContribution) (*altair.SyncCommitteeContribution, error) {
+	b, err := stored.MarshalSSZ()
+	if err != nil {
+		return nil, errors.Wrap(err, "marshal sync committee contribution")
+	}
+
+	resp := new(altair.SyncCommitteeContribution)
+	if err := resp.UnmarshalSSZ(b); err != nil {
+		return nil, errors.Wrap(err, "unmarshal sync committee contribution")
+	}
+
+	return resp, nil
 }
 
 // PubKeyByAttestation implements core.DutyDB, see its godoc.
